@@ -16,6 +16,7 @@ NOTE = ("Trusted: bitarray C extension (replaced by a model that is differential
 
 # property -> (technique, design section, extra note) ; None = not yet claimed
 CLAIMED = {
+    'C07': ("symbolic execution (CrossHair/z3) of find/rfind/findall/in/startswith/endswith/count/cut/split against a declarative brute-force definition", "DESIGN.md 5/C07", ""),
     'C06': ("symbolic execution (CrossHair/z3) of every stream operation, one step from an arbitrary (content, pos), with position invariant", "DESIGN.md 5/C06", ""),
     'C03': ("symbolic execution (CrossHair/z3) of every mutator, one step from an arbitrary state, against sequence-level oracles", "DESIGN.md 5/C03", ""),
     'C13': ("symbolic execution (CrossHair/z3) of ==, != and __hash__ (hash-input probe) over class pairs and promotable operands", "DESIGN.md 5/C13", ""),
